@@ -187,6 +187,9 @@ func sceneExpiry(o ReqOpts) {
 			nOut++
 		}
 		chk("C15", vf.All(post.Owner.Equals(s.Owner), post.Provider.Equals(s.Provs[j]), post.Pricing == b.Text, post.QoS == b.QoS), "binding-identity-stable")
+		// whatever is left of the deposit, the stored binding still satisfies the module's validity rules (an exported
+		// genesis holding it must validate)
+		chk("C15 C19", post.Validate() == nil, "slashed-binding-stays-valid")
 	}
 	chk("C02 C01", vf.Balance(s.Consumer).Sub(s.BalC0).Equal(refund), "pending-fees-refunded-to-consumer")
 	chk("C01 C02", s.Esc0.Sub(vf.ModuleBalance(types.RequestAccName)).Equal(refund), "escrow-releases-exactly-refunds")
